@@ -50,6 +50,7 @@ class Run:
         self.ever: Dict[int, Dict[int, Any]] = {}  # id(manager) -> iid -> object it was issued to
         self.prev: Dict[int, Dict[int, int]] = {}  # id(manager) -> id(obj) -> iid at the last snapshot
         self.auto_aids: List[int] = []
+        self.model_subs: List[dict] = []
         self.snapshot()
 
     def fail(self, sig: str, desc: str):
@@ -197,10 +198,15 @@ class Run:
             for s in acc.services:
                 for c in s.characteristics:
                     chars_live.append((key, acc, c))
+        # anything live that the construction bookkeeping does not know (e.g. registered by an add that
+        # was reported as rejected) gets a number now: an unexpected object is an observation, not a crash
+        for key, acc in rig.accessories():
+            rig.number_accessory(acc)
         for _, _, c in chars_live:
             # (always-null characteristics store None, which is not a readable value: report 0)
             c.getter_callback = (lambda c=c: (hits.append(("r", c)), 0 if c.value is None else c.value)[1])
             c.setter_callback = (lambda v, c=c: hits.append(("w", c)))
+        subs_obs = self.subscription_scenario(doc, rng)
         resolve = {}
         pairs = []
         for a in doc["accessories"]:
@@ -279,16 +285,102 @@ class Run:
                     "aid": key,
                     "ownAid": acc.aid,
                     "counter": m.counter,
-                    "iids": sorted([rig.num(o), i] for o, i in m.iids.items()),
+                    "iids": sorted(([rig.num(o), i] for o, i in m.iids.items()), key=_nkey),
                 }
             )
         return {
             "results": self.results,
             "accessories": skeleton,
             "managers": managers,
-            "resolve": sorted(out_resolve, key=lambda e: e["obj"]),
+            "resolve": sorted(out_resolve, key=lambda e: _nkey([e["obj"]])),
             "probes": probe_obs,
+            "subs": subs_obs,
         }
+
+    # ------------------------------------------------------------------ subscriptions
+
+    SUB_CLIENTS = [("10.9.0.1", 6001), ("10.9.0.2", 6002), ("10.9.0.3", 6003)]
+
+    def gen_subs(self, rng, pairs: List[tuple]) -> List[dict]:
+        """Subscription requests naming several pairs at once, single-pair (un)subscribes by other
+        connections, and value changes on every pair."""
+        by_iid: Dict[int, List[tuple]] = {}
+        for p in pairs:
+            by_iid.setdefault(p[1], []).append(p)
+        shared = [v for v in by_iid.values() if len(v) >= 2]
+        group: List[tuple] = []
+        if shared:
+            group += rng.choice(shared)[:2]  # the same iid in two accessories
+        for p in rng.sample(pairs, min(len(pairs), 3)):
+            if p not in group:
+                group.append(p)
+        group = group[:4]
+        if len(group) < 2:
+            return []
+        sub = lambda cl, items: {"client": cl, "sub": [[a, i, on] for (a, i), on in items]}  # noqa: E731
+        every = [{"notify": list(p)} for p in group]
+        steps = [sub(0, [(p, True) for p in group]), sub(1, [(group[0], True)])] + every
+        steps += [sub(1, [(group[0], False)]), sub(0, [(group[1], False)])] + every
+        steps += [sub(2, [(p, True) for p in group[1:]]), sub(2, [(group[-1], False)])] + every
+        for _ in range(rng.randrange(2, 7)):
+            k = rng.choice([1, 1, 2, 3])
+            steps.append(sub(rng.randrange(3), [(rng.choice(group), rng.random() < 0.6) for _ in range(k)]))
+            steps += [{"notify": list(rng.choice(group))} for _ in range(rng.choice([1, 2]))]
+        steps += every
+        return steps
+
+    def subscription_scenario(self, doc, rng) -> List[dict]:
+        """Oracle: a connection receives the event of a value change of pair p iff it itself
+        subscribed to p and has not unsubscribed from p since; the event carries p."""
+        rig = self.rig
+        pairs = [(a["aid"], c["iid"]) for a in doc["accessories"] for s in a["services"] for c in s["characteristics"]
+                 if a["aid"] is not None and c["iid"] is not None]
+        pairs = list(dict.fromkeys(pairs))
+        steps = self.h.get("subs")
+        if steps is None:
+            import random as _random
+
+            steps = self.gen_subs(rng or _random.Random(0), pairs) if pairs else []
+            self.h["subs"] = steps
+        own: Dict[int, set] = {}
+        out: List[dict] = []
+        self.model_subs = []
+        done: List[str] = []
+        try:
+            for st in steps:
+                if "notify" not in st:
+                    addr = self.SUB_CLIENTS[st["client"]]
+                    q = {"characteristics": [{"aid": a, "iid": i, "ev": on} for a, i, on in st["sub"]]}
+                    rig.http("PUT", "/characteristics", json.dumps(q).encode(), addr)
+                    for a, i, on in st["sub"]:
+                        (own.setdefault(st["client"], set()).add if on else own.setdefault(st["client"], set()).discard)((a, i))
+                    self.model_subs.append(st)
+                    done.append(f"client {st['client']}: " + ", ".join(("+" if on else "-") + f"({a},{i})" for a, i, on in st["sub"]))
+                    continue
+                aid, iid = st["notify"]
+                acc = rig.accessory(aid)
+                obj = acc.iid_manager.get_obj(iid) if acc is not None else None
+                if obj is None or not hasattr(obj, "notify"):
+                    continue  # the pair is not listed in this (minimised) history
+                self.model_subs.append({"notify": rig.num(obj)})
+                del rig.events[:]
+                del rig.pushed[:]
+                obj.notify()
+                ev = rig.events[-1] if rig.events else None
+                got = sorted(self.SUB_CLIENTS.index(cl) for _, cl in rig.pushed if cl in self.SUB_CLIENTS)
+                want = sorted(c for c, ps in own.items() if (aid, iid) in ps)
+                carried = {(d["aid"], d["iid"]) for d, _ in rig.pushed}
+                out.append({"event": [ev["aid"], ev["iid"]] if ev else None, "clients": got})
+                if got != want or (carried and carried != {(aid, iid)}):
+                    self.fail(
+                        "C17:subscription-crosstalk",
+                        f"after [{'; '.join(done[-6:])}] a value change of ({aid},{iid}) is delivered to connections {got} "
+                        f"carrying {sorted(carried, key=str)}; subscribed to that pair: {want}",
+                    )
+        finally:
+            for addr in self.SUB_CLIENTS:
+                rig.driver.connection_lost(addr)
+        return out
 
     # ------------------------------------------------------------------ multi-id reads
 
@@ -427,6 +519,11 @@ class Run:
         return {n for n, o in enumerate(self.rig.objs) if isinstance(o, Characteristic)}
 
 
+def _nkey(x):
+    """Sort key that tolerates None among numbers."""
+    return [(v is None, v if v is not None else 0) for v in x]
+
+
 def model_view(m: dict, char_nums, live_objs) -> dict:
     """Project the model's answer onto what the harness observes."""
     accs = None
@@ -453,15 +550,16 @@ def model_view(m: dict, char_nums, live_objs) -> dict:
                 x["read"], x["write"] = e["read"], e["write"]
             resolve.append(x)
     managers = [
-        {"aid": g["aid"], "ownAid": g["ownAid"], "counter": g["counter"], "iids": sorted(g["iids"])}
+        {"aid": g["aid"], "ownAid": g["ownAid"], "counter": g["counter"], "iids": sorted(g["iids"], key=_nkey)}
         for g in m.get("managers", [])
     ]
     return {
         "results": m.get("results"),
         "accessories": accs,
         "managers": managers,
-        "resolve": sorted(resolve, key=lambda e: e["obj"]),
+        "resolve": sorted(resolve, key=lambda e: _nkey([e["obj"]])),
         "probes": m.get("probes", []),
+        "subs": m.get("subs", []),
     }
 
 
@@ -483,6 +581,8 @@ def replay_history(h: dict, ctx: Optional[Ctx] = None):
     try:
         if h.get("probes") is not None:
             run.h["probes"] = h["probes"]
+        if h.get("subs") is not None:
+            run.h["subs"] = h["subs"]
         for op in h["ops"]:
             run.apply(op)
         obs = run.observe(ctx.rng if ctx is not None else None)
@@ -534,6 +634,25 @@ def boundary_histories(pool) -> List[dict]:
     hs.append({"bridge": False, "mainAid": None, "main": [lb], "ops": [{"op": "removeIid", "aid": 1, "iid": 2}, {"op": "addService", "aid": 1, "spec": sw}]})
     hs.append({"bridge": False, "mainAid": 1, "main": [lb, sw], "ops": [{"op": "removeObj", "aid": 1, "obj": 9}, {"op": "assign", "aid": 1, "obj": 9}]})
     hs.append({"bridge": True, "main": [], "ops": [auto() for _ in range(5)] + [{"op": "removeAccessory", "aid": 2}, expl(7), auto(), auto(), auto()]})
+    # hand-assembled services: a type repeated within one add_characteristic call (fresh objects of one
+    # type / the same fresh object twice) and in a later call
+    def raw(calls, same):
+        return {"raw": "00000043-0000-1000-8000-0026BB765291", "charNames": [n for c in calls for n in c], "calls": calls, "sameObject": same}
+
+    hs.append(
+        {
+            "bridge": True,
+            "main": [],
+            "ops": [
+                {"op": "addService", "aid": 1, "spec": raw([["On", "Brightness", "On"]], False)},
+                {"op": "addService", "aid": 1, "spec": raw([["On", "Brightness", "On"]], True)},
+                auto([raw([["On", "On"], ["Brightness", "On"]], False)]),
+                {"op": "addService", "aid": 2, "spec": raw([["Hue"], ["Hue", "Saturation"]], True)},
+                {"op": "addService", "aid": 2, "spec": raw([["Hue", "Saturation", "Hue", "Saturation"]], False)},
+            ],
+        }
+    )
+    hs.append({"bridge": False, "mainAid": None, "main": [], "ops": [{"op": "addService", "aid": 1, "spec": raw([["Name", "On", "Name"]], False)}]})
     for h in hs:
         h.setdefault("mainAid", 1)
     return hs
@@ -547,6 +666,12 @@ def random_history(ctx: Ctx, pool, big: bool = False):
     main_aid = 1 if bridge else rng.choice([1, None])
     run = new_run(ctx, bridge, main, main_aid)
     rig = run.rig
+
+    def any_spec():
+        if rng.random() < 0.15:
+            return dbrig.random_raw_spec(rng, pool, rig.loader)
+        return dbrig.random_spec(rng, pool)
+
     n_ops = rng.randrange(8, 16) if big else rng.randrange(2, 13)
     removed: List[tuple] = []  # (aid, obj number) removed from a manager
     for _ in range(n_ops):
@@ -560,14 +685,14 @@ def random_history(ctx: Ctx, pool, big: bool = False):
                 aid = rng.choice([a for a in range(2, 13)])
             else:
                 aid = rng.choice(keys + [1, 7])
-            specs = [dbrig.random_spec(rng, pool) for _ in range(rng.choice([0, 0, 1, 1, 2]))]
+            specs = [any_spec() for _ in range(rng.choice([0, 0, 1, 1, 2]))]
             op = {"op": "addAccessory", "aid": aid, "specs": specs}
             if rng.random() < 0.04:
                 op["catBridge"] = True
         elif bridge and x < 0.33 and len(keys) > 1:
             op = {"op": "removeAccessory", "aid": rng.choice(keys[1:] + [rng.randrange(2, 12)])}
         elif x < 0.5:
-            op = {"op": "addService", "aid": rng.choice(keys), "spec": dbrig.random_spec(rng, pool)}
+            op = {"op": "addService", "aid": rng.choice(keys), "spec": any_spec()}
         else:
             key = rng.choice(keys)
             acc = rig.accessory(key)
@@ -591,9 +716,9 @@ def random_history(ctx: Ctx, pool, big: bool = False):
     return run
 
 
-def line_of(h: dict) -> dict:
+def line_of(h: dict, model_subs=None) -> dict:
     return {"layer": "db", "op": "c17", "bridge": h["bridge"], "mainAid": h.get("mainAid", 1), "main": h["main"], "ops": h["ops"],
-            "probes": h.get("probes") or []}
+            "probes": h.get("probes") or [], "subs": model_subs or []}
 
 
 def nontrivial(h: dict, results: List[dict]) -> bool:
@@ -646,7 +771,10 @@ def run(ctx: Ctx):
         "add-service, add-accessory with explicit/automatic aid, remove-accessory, IIDManager assign/remove_obj/remove_iid) "
         "followed by GET /accessories and, for every listed characteristic pair, a GET, a PUT, a subscription and an event, "
         "then multi-id GET /characteristics requests (runs of ids per accessory, shuffled, repeated, unknown accessories "
-        "interleaved, bridged accessories switched unavailable) judged per entry against the object the write/event paths reach. "
+        "interleaved, bridged accessories switched unavailable) judged per entry against the object the write/event paths reach, "
+        "and a subscription scenario (one PUT subscribing several pairs, single-pair (un)subscribes by other connections, value "
+        "changes on every pair: an event reaches exactly the connections that themselves subscribed to that pair). Services are "
+        "shipped ones or hand-assembled with a type repeated inside one add_characteristic call / in a later call. "
         "Non-trivial: the history contains a removal/re-assignment, a rejected operation, or an automatic aid beyond 7; "
         "distinct by the op list."
     )
@@ -675,7 +803,7 @@ def run(ctx: Ctx):
             r.rig.close()
         runs.append(r)
         obs.append(o)
-    lines = [line_of(r.h) for r in runs]
+    lines = [line_of(r.h, r.model_subs) for r in runs]
     model = run_model_parallel("C17", lines)
     for r, o, m in zip(runs, obs, model):
         judge(ctx, r)
@@ -690,7 +818,7 @@ def run(ctx: Ctx):
             continue
         mv = model_view(m, r.char_numbers(), None)
         if mv != o:
-            key = next((k for k in ("results", "accessories", "managers", "resolve", "probes") if mv.get(k) != o.get(k)), "?")
+            key = next((k for k in ("results", "accessories", "managers", "resolve", "probes", "subs") if mv.get(k) != o.get(k)), "?")
             ctx.disagree("c17-history:" + key, r.h, _short(mv.get(key)), _short(o.get(key)))
     for i in sorted({0, min(5, len(runs) - 1), len(runs) - 1} if runs else set()):
         r, o = runs[i], obs[i]
